@@ -1,5 +1,6 @@
 """C13 - geometric invariants and in-place == copy after any transformation sequence."""
 from . import geom
+from . import common as cm
 
 FLOOR = 120
 ANCHORS = [
@@ -27,6 +28,7 @@ AUTOMUT_TRIAGE = [
 
 
 def run(chk):
+    cm.schema(chk, chk.repo, "C13")
     geom.table_exhaustive(chk, "C13")
     geom.write_site_audit(chk, "C13")
     geom.affine_maps(chk, "C13")
